@@ -19,7 +19,10 @@ A_COMMON = [
     'NonZeroU32::{MIN, checked_add} and value-extensionality, RefCell::{new,get_mut,borrow} and Ref deref (functional value only; the dynamic borrow flag is NOT modelled), '
     'MaybeUninit::write, <u64 as Hash>::hash (a hasher is the sequence of words fed to it), std::slice::Iter::size_hint (exact).',
     'A-dataptr: DataPtr<T> method bodies (raw pointers, allocator) are outside Verus; their contracts over the ghost view cells(): Seq<Option<T>> '
-    '(contracts/storage.vsp, transcribed from the # Safety sections) are assumed here and checked bounded by the Kani harnesses (thorough tier).',
+    '(contracts/storage.vsp, transcribed from the # Safety sections) are assumed in the Verus units. On the real bodies they are discharged by the loop-free '
+    'full-domain Kani harnesses (kani/dataptr_full_harness.rs: capacity symbolic over 1..=2^24, element types u64, [u8; 3], a zero-sized Drop type) for write / slice / '
+    'slice_mut / raw_data / swap_remove / grow / dealloc, and checked bounded (capacity <= 4 resp. 8) for the destructor loop drop_to and for an over-aligned element type; '
+    'parametricity of the bodies in T beyond size and alignment is assumed.',
     'A-transmute: `From<&Entity<A>> for &EntityAny` / `From<&EntityDirect<A>> for &EntityDirectAny` (mem::transmute of a repr(transparent) wrapper) keep their signature with the ASSUMED contract '
     '`*r == value.any()` (used by the generated event iterator); the loop-free full-domain Kani harness entity_transmute checks it on the real code.',
     'A-alloc: allocation failure aborts; size_of::<T>() * 2^24 <= isize::MAX, so DataPtr allocation panics and Vec::push capacity overflow are unreachable.',
